@@ -29,7 +29,10 @@ import (
 	NoKV "github.com/feichai0017/NoKV"
 	myraft "github.com/feichai0017/NoKV/raft"
 	"github.com/feichai0017/NoKV/raftstore/engine"
+	"github.com/feichai0017/NoKV/utils"
 	"github.com/feichai0017/NoKV/vfs"
+	"github.com/feichai0017/NoKV/manifest"
+	"github.com/feichai0017/NoKV/wal"
 	"verif/harness/internal/core"
 	"verif/harness/internal/crash"
 	"verif/harness/internal/dbx"
@@ -44,9 +47,11 @@ type step struct {
 	N       int    `json:"n,omitempty"`
 	ETerm   uint64 `json:"eterm,omitempty"`
 	DataLen int    `json:"dlen,omitempty"`
+	Group   uint64 `json:"group,omitempty"`
 }
 
 type script struct {
+	Mode  string `json:"mode,omitempty"` // "" = C21, "c36" = two groups + watchdog + WAL sync after every step
 	Seed  int64  `json:"seed"`
 	Steps []step `json:"steps"`
 }
@@ -57,50 +62,64 @@ type mstate struct {
 	Log                map[uint64][2]uint64 // index -> (term, data id = step index)
 	Last               uint64
 	SnapIndex          uint64
+	Compacted          uint64 // entries at or below this index were compacted away by MaybeCompact
 }
 
-func gen(seed int64, n int, pure bool) script {
+type gstate struct{ term, vote, commit, last, snap uint64 }
+
+func gen(seed int64, n int, pure bool, mode string) script {
 	rng := rand.New(rand.NewSource(seed))
-	s := script{Seed: seed}
-	var term, vote, commit, last, snap uint64
-	term = 1
+	s := script{Seed: seed, Mode: mode}
+	groups := map[uint64]*gstate{1: {term: 1}}
+	if mode == "c36" {
+		groups[2] = &gstate{term: 1}
+	}
 	for i := 0; i < n; i++ {
+		gid := uint64(1)
+		if mode == "c36" && rng.Intn(2) == 0 {
+			gid = 2
+		}
+		g := groups[gid]
 		r := rng.Intn(100)
+		if mode == "c36" && r >= 90 {
+			s.Steps = append(s.Steps, step{Kind: "watchdog"})
+			continue
+		}
 		switch {
 		case r < 22:
 			if rng.Intn(3) == 0 {
-				term += uint64(1 + rng.Intn(2))
-				vote = uint64(1 + rng.Intn(3))
+				g.term += uint64(1 + rng.Intn(2))
+				g.vote = uint64(1 + rng.Intn(3))
 			}
-			if commit < last {
-				commit += uint64(rng.Intn(int(last-commit) + 1))
+			if g.commit < g.last {
+				g.commit += uint64(rng.Intn(int(g.last-g.commit) + 1))
 			}
-			s.Steps = append(s.Steps, step{Kind: "hs", Term: term, Vote: vote, Commit: commit})
-		case r < 62:
-			first := last + 1
-			eterm := term
-			if last > commit+1 && rng.Intn(4) == 0 {
+			s.Steps = append(s.Steps, step{Kind: "hs", Group: gid, Term: g.term, Vote: g.vote, Commit: g.commit})
+		case r < 58:
+			first := g.last + 1
+			eterm := g.term
+			if g.last > g.commit+1 && rng.Intn(4) == 0 {
 				// conflicting overwrite of an uncommitted suffix with a higher term
-				first = commit + 1 + uint64(rng.Intn(int(last-commit)))
-				term++
-				eterm = term
+				first = g.commit + 1 + uint64(rng.Intn(int(g.last-g.commit)))
+				g.term++
+				eterm = g.term
 			}
 			cnt := 1 + rng.Intn(4)
-			s.Steps = append(s.Steps, step{Kind: "append", Index: first, N: cnt, ETerm: eterm, DataLen: []int{0, 16, 200, 3000}[rng.Intn(4)]})
-			last = first + uint64(cnt) - 1
-		case r < 70:
-			if last > 0 {
+			s.Steps = append(s.Steps, step{Kind: "append", Group: gid, Index: first, N: cnt, ETerm: eterm, DataLen: []int{0, 16, 200, 3000}[rng.Intn(4)]})
+			g.last = first + uint64(cnt) - 1
+		case r < 64:
+			if g.last > 0 {
 				// a snapshot ahead of the log (as a lagging follower receives it):
 				// the log restarts right after it
-				idx := last + 1 + uint64(rng.Intn(3))
-				s.Steps = append(s.Steps, step{Kind: "snap", Index: idx, ETerm: term})
-				snap, last, commit = idx, idx, idx
+				idx := g.last + 1 + uint64(rng.Intn(3))
+				s.Steps = append(s.Steps, step{Kind: "snap", Group: gid, Index: idx, ETerm: g.term})
+				g.snap, g.last, g.commit = idx, idx, idx
 				continue
 			}
 			fallthrough
-		case r < 78:
-			if commit > snap+2 {
-				s.Steps = append(s.Steps, step{Kind: "compact", Index: commit, N: 1 + rng.Intn(2)})
+		case r < 74:
+			if g.commit > g.snap+2 {
+				s.Steps = append(s.Steps, step{Kind: "compact", Group: gid, Index: g.commit, N: 1 + rng.Intn(2)})
 				continue
 			}
 			fallthrough
@@ -117,11 +136,23 @@ func gen(seed int64, n int, pure bool) script {
 	return s
 }
 
-func modelAfter(s script, p int) mstate {
-	m := mstate{Log: map[uint64][2]uint64{}}
+// modelAfter returns the per-group raft model and the number of DB keys written after p steps.
+func modelAfter(s script, p int) (map[uint64]*mstate, int) {
+	ms := map[uint64]*mstate{1: {Log: map[uint64][2]uint64{}}}
+	if s.Mode == "c36" {
+		ms[2] = &mstate{Log: map[uint64][2]uint64{}}
+	}
+	dbn := 0
 	for i := 0; i < p && i < len(s.Steps); i++ {
 		st := s.Steps[i]
+		gid := st.Group
+		if gid == 0 {
+			gid = 1
+		}
+		m := ms[gid]
 		switch st.Kind {
+		case "dbwrite":
+			dbn += st.N
 		case "hs":
 			m.Term, m.Vote, m.Commit = st.Term, st.Vote, st.Commit
 		case "append":
@@ -141,9 +172,13 @@ func modelAfter(s script, p int) mstate {
 			if m.Commit < st.Index {
 				m.Commit = st.Index
 			}
+		case "compact":
+			if t := st.Index - uint64(st.N); st.Index > uint64(st.N) && t > m.Compacted {
+				m.Compacted = t
+			}
 		}
 	}
-	return m
+	return ms, dbn
 }
 
 func entryData(stepIdx int, index uint64, n int) []byte {
@@ -179,6 +214,18 @@ func workerMain(args []string) int {
 		line("OPENERR " + err.Error())
 		return 3
 	}
+	var ws2 *engine.WALStorage
+	var dog *wal.Watchdog
+	if s.Mode == "c36" {
+		ws2, err = engine.OpenWALStorage(engine.WALStorageConfig{GroupID: 2, WAL: db.WAL(), Manifest: db.Manifest()})
+		if err != nil {
+			line("OPENERR " + err.Error())
+			return 3
+		}
+		// the same configuration DB.Open builds for its watchdog
+		dog = wal.NewWatchdog(wal.WatchdogConfig{Manager: db.WAL(), Interval: time.Hour, MinRemovable: 1, MaxBatch: 4, WarnRatio: 0.35, WarnSegments: 6,
+			RaftPointers: func() map[uint64]manifest.RaftLogPointer { return db.Manifest().RaftPointerSnapshot() }})
+	}
 	line("OPENED")
 	// the model term of existing entries is needed for snapshots
 	termOf := map[uint64]uint64{}
@@ -186,9 +233,15 @@ func workerMain(args []string) int {
 	for i, st := range s.Steps {
 		line(fmt.Sprintf("CALL %d", i))
 		var err error
+		cur := ws
+		if st.Group == 2 && ws2 != nil {
+			cur = ws2
+		}
 		switch st.Kind {
+		case "watchdog":
+			dog.RunOnce()
 		case "hs":
-			err = ws.SetHardState(myraft.HardState{Term: st.Term, Vote: st.Vote, Commit: st.Commit})
+			err = cur.SetHardState(myraft.HardState{Term: st.Term, Vote: st.Vote, Commit: st.Commit})
 		case "append":
 			var ents []myraft.Entry
 			for j := 0; j < st.N; j++ {
@@ -196,26 +249,31 @@ func workerMain(args []string) int {
 				ents = append(ents, myraft.Entry{Index: idx, Term: st.ETerm, Data: entryData(i, idx, st.DataLen)})
 				termOf[idx] = st.ETerm
 			}
-			err = ws.Append(ents)
+			err = cur.Append(ents)
 		case "snap":
 			var snap myraft.Snapshot
 			snap.Metadata.Index = st.Index
 			snap.Metadata.Term = st.ETerm
 			snap.Metadata.ConfState.Voters = []uint64{1, 2, 3}
 			snap.Data = []byte(fmt.Sprintf("snap-%d", st.Index))
-			err = ws.ApplySnapshot(snap)
+			err = cur.ApplySnapshot(snap)
 		case "compact":
-			err = ws.MaybeCompact(st.Index, uint64(st.N))
+			err = cur.MaybeCompact(st.Index, uint64(st.N))
 		case "dbwrite":
 			for j := 0; j < st.N && err == nil; j++ {
 				dbn++
 				err = db.Set([]byte(fmt.Sprintf("db-%05d", dbn)), dbx.Value(fmt.Sprintf("d%d|", dbn), st.DataLen))
 			}
 		}
+		if err == nil && s.Mode == "c36" {
+			// everything handed to the WAL so far reaches the kernel: a record
+			// missing after the crash can only be explained by a removed segment
+			err = db.WAL().Sync()
+		}
 		if err != nil {
 			line(fmt.Sprintf("ERR %d %v", i, err))
 		} else {
-			if st.Kind != "dbwrite" && st.Kind != "compact" {
+			if st.Kind != "dbwrite" && st.Kind != "compact" && st.Kind != "watchdog" {
 				line(fmt.Sprintf("SEG %d %d", i, db.WAL().ActiveSegment()))
 			}
 			line(fmt.Sprintf("ACK %d", i))
@@ -242,42 +300,76 @@ func options(dir string) *NoKV.Options {
 	return o
 }
 
-type recovered struct {
-	OpenError   string               `json:"open_error,omitempty"`
-	RaftError   string               `json:"raft_error,omitempty"`
-	Term        uint64               `json:"term"`
-	Vote        uint64               `json:"vote"`
-	Commit      uint64               `json:"commit"`
-	FirstIndex  uint64               `json:"first"`
-	LastIndex   uint64               `json:"last"`
-	Log         map[string][2]string `json:"log"` // index -> (term, data head)
-	SnapIndex   uint64               `json:"snap_index"`
-	WalSegments []int                `json:"wal_segments"`
+type recGroup struct {
+	RaftError  string               `json:"raft_error,omitempty"`
+	Term       uint64               `json:"term"`
+	Vote       uint64               `json:"vote"`
+	Commit     uint64               `json:"commit"`
+	FirstIndex uint64               `json:"first"`
+	LastIndex  uint64               `json:"last"`
+	Log        map[string][2]string `json:"log"` // index -> (term, data head)
+	SnapIndex  uint64               `json:"snap_index"`
 }
 
+type recovered struct {
+	OpenError   string                `json:"open_error,omitempty"`
+	Groups      map[string]*recGroup  `json:"groups"`
+	WalSegments []int                 `json:"wal_segments"`
+	DB          map[string]string     `json:"db,omitempty"` // key -> value head#len, "" absent, "ERR:..." error
+}
+
+func readGroup(db *NoKV.DB, gid uint64) (rg *recGroup) {
+	rg = &recGroup{Log: map[string][2]string{}}
+	defer func() {
+		if r := recover(); r != nil {
+			rg.RaftError = fmt.Sprintf("panic: %v", r)
+		}
+	}()
+	ws, err := engine.OpenWALStorage(engine.WALStorageConfig{GroupID: gid, WAL: db.WAL(), Manifest: db.Manifest()})
+	if err != nil {
+		rg.RaftError = err.Error()
+		return rg
+	}
+	hs, _, err := ws.InitialState()
+	if err != nil {
+		rg.RaftError = "InitialState: " + err.Error()
+		return rg
+	}
+	rg.Term, rg.Vote, rg.Commit = hs.Term, hs.Vote, hs.Commit
+	fi, _ := ws.FirstIndex()
+	li, _ := ws.LastIndex()
+	rg.FirstIndex, rg.LastIndex = fi, li
+	if li >= fi {
+		ents, err := ws.Entries(fi, li+1, 1<<30)
+		if err != nil {
+			rg.RaftError = "Entries: " + err.Error()
+			return rg
+		}
+		for _, e := range ents {
+			h := e.Data
+			if i := bytes.IndexByte(h, '|'); i >= 0 {
+				h = h[:i+1]
+			}
+			rg.Log[strconv.FormatUint(e.Index, 10)] = [2]string{strconv.FormatUint(e.Term, 10), string(h)}
+		}
+	}
+	if snap, err := ws.Snapshot(); err == nil {
+		rg.SnapIndex = snap.Metadata.Index
+	}
+	return rg
+}
+
+// c21verify <dir> <out.json> <groups> <dbkeys>
 func verifyMain(args []string) int {
 	dir, outPath := args[0], args[1]
-	var res recovered
+	ngroups, _ := strconv.Atoi(args[2])
+	ndb, _ := strconv.Atoi(args[3])
+	res := recovered{Groups: map[string]*recGroup{}}
 	write := func() int {
 		b, _ := json.Marshal(res)
 		_ = os.WriteFile(outPath, b, 0o644)
 		return 0
 	}
-	if files, err := filepath.Glob(filepath.Join(dir, "*.wal")); err == nil {
-		for _, f := range files {
-			if n, err := strconv.Atoi(strings.TrimSuffix(filepath.Base(f), ".wal")); err == nil {
-				res.WalSegments = append(res.WalSegments, n)
-			}
-		}
-	}
-	// a panic inside the raft storage replay is reported, not fatal
-	defer func() {
-		if r := recover(); r != nil {
-			res.RaftError = fmt.Sprintf("panic: %v", r)
-			write()
-			os.Exit(0)
-		}
-	}()
 	db, err := dbx.Open(options(dir))
 	if err != nil {
 		res.OpenError = err.Error()
@@ -285,7 +377,6 @@ func verifyMain(args []string) int {
 	}
 	defer db.Close()
 	// segments still present after the DB's own recovery (which may remove some)
-	res.WalSegments = nil
 	if files, err := filepath.Glob(filepath.Join(dir, "*.wal")); err == nil {
 		for _, f := range files {
 			if n, err := strconv.Atoi(strings.TrimSuffix(filepath.Base(f), ".wal")); err == nil {
@@ -293,37 +384,27 @@ func verifyMain(args []string) int {
 			}
 		}
 	}
-	ws, err := engine.OpenWALStorage(engine.WALStorageConfig{GroupID: 1, WAL: db.WAL(), Manifest: db.Manifest()})
-	if err != nil {
-		res.RaftError = err.Error()
-		return write()
+	for g := 1; g <= ngroups; g++ {
+		res.Groups[strconv.Itoa(g)] = readGroup(db, uint64(g))
 	}
-	hs, _, err := ws.InitialState()
-	if err != nil {
-		res.RaftError = "InitialState: " + err.Error()
-		return write()
-	}
-	res.Term, res.Vote, res.Commit = hs.Term, hs.Vote, hs.Commit
-	fi, _ := ws.FirstIndex()
-	li, _ := ws.LastIndex()
-	res.FirstIndex, res.LastIndex = fi, li
-	res.Log = map[string][2]string{}
-	if li >= fi {
-		ents, err := ws.Entries(fi, li+1, 1<<30)
-		if err != nil {
-			res.RaftError = "Entries: " + err.Error()
-			return write()
-		}
-		for _, e := range ents {
-			h := e.Data
-			if i := bytes.IndexByte(h, '|'); i >= 0 {
-				h = h[:i+1]
+	if ndb > 0 {
+		res.DB = map[string]string{}
+		for i := 1; i <= ndb; i++ {
+			k := fmt.Sprintf("db-%05d", i)
+			e, err := db.Get([]byte(k))
+			switch {
+			case err == nil:
+				h := e.Value
+				if j := bytes.IndexByte(h, '|'); j >= 0 {
+					h = h[:j+1]
+				}
+				res.DB[k] = fmt.Sprintf("%s#%d", h, len(e.Value))
+			case errors.Is(err, utils.ErrKeyNotFound):
+				res.DB[k] = ""
+			default:
+				res.DB[k] = "ERR:" + err.Error()
 			}
-			res.Log[strconv.FormatUint(e.Index, 10)] = [2]string{strconv.FormatUint(e.Term, 10), string(h)}
 		}
-	}
-	if snap, err := ws.Snapshot(); err == nil {
-		res.SnapIndex = snap.Metadata.Index
 	}
 	return write()
 }
@@ -359,16 +440,23 @@ func killed(err error) bool {
 
 const chunks = 4
 
-func run(c *core.Case) {
-	nScripts := scriptsFor(c.Tier)
+// Run executes one case for property id ("C21" or "C36").
+func Run(c *core.Case, id string) {
+	mode := ""
+	if id == "C36" {
+		mode = "c36"
+	}
 	si, chunk := c.Idx/chunks, c.Idx%chunks
-	_ = nScripts
 	n := 45
 	if c.Thorough() {
 		n = 90
 	}
-	pure := si%2 == 1
-	s := gen(c.Seed*100+int64(si), n, pure)
+	pure := mode == "" && si%2 == 1
+	s := gen(c.Seed*100+int64(si), n, pure, mode)
+	ngroups := 1
+	if mode == "c36" {
+		ngroups = 2
+	}
 	sj, _ := json.Marshal(s)
 	base := c.TempDir()
 	// dry run
@@ -402,10 +490,11 @@ func run(c *core.Case) {
 	seen := map[int64]bool{}
 	for _, name := range names {
 		ords := dr.Strata[name]
-		for j := 0; j < per && j < len(ords); j++ {
+		k := min(per, len(ords))
+		for j := 0; j < k; j++ {
 			idx := 0
-			if per > 1 && len(ords) > 1 {
-				idx = j * (len(ords) - 1) / (min(per, len(ords)) - 1 + boolInt(min(per, len(ords)) == 1))
+			if k > 1 {
+				idx = j * (len(ords) - 1) / (k - 1)
 			}
 			if !seen[ords[idx]] {
 				seen[ords[idx]] = true
@@ -417,7 +506,7 @@ func run(c *core.Case) {
 		pts = append(pts, point{0, k, "after-step:" + s.Steps[k].Kind})
 	}
 	if chunk == 0 && si < 2 {
-		c.Sample(map[string]any{"script_seed": s.Seed, "first_steps": s.Steps[:min(8, len(s.Steps))], "file_ops": dr.Total, "crash_points": len(pts)})
+		c.Sample(map[string]any{"script_seed": s.Seed, "mode": mode, "pure_raft_script": pure, "first_steps": s.Steps[:min(8, len(s.Steps))], "file_ops": dr.Total, "crash_points": len(pts)})
 	}
 	for pi, p := range pts {
 		if pi%chunks != chunk {
@@ -428,8 +517,14 @@ func run(c *core.Case) {
 		ackPath := dir + ".ack"
 		werr, wout := runChild("c21db", dir, ackPath, string(sj), strconv.FormatInt(p.killAt, 10), strconv.Itoa(p.afterStep), "")
 		ack := crash.ReadAckLog(ackPath)
+		raftSegs := map[int]bool{}
 		if ab, err := os.ReadFile(ackPath); err == nil {
-			_ = os.WriteFile(ackPath+".copy", ab, 0o644)
+			for _, ln := range strings.Split(string(ab), "\n") {
+				var sidx, seg int
+				if n, _ := fmt.Sscanf(ln, "SEG %d %d", &sidx, &seg); n == 2 {
+					raftSegs[seg] = true
+				}
+			}
 		}
 		_ = os.Remove(ackPath)
 		c.Count("evaluations", 1)
@@ -448,8 +543,14 @@ func run(c *core.Case) {
 			c.Count("crash."+p.stratum, 1)
 			c.Nontrivial(fmt.Sprintf("%d|%s|%d", s.Seed, p.stratum, acked))
 		}
+		mA, dbA := modelAfter(s, acked)
+		mC, dbC := modelAfter(s, called)
+		ndb := 0
+		if mode == "c36" {
+			ndb = dbC
+		}
 		outPath := dir + ".out.json"
-		verr, vout := runChild("c21verify", dir, outPath)
+		verr, vout := runChild("c21verify", dir, outPath, strconv.Itoa(ngroups), strconv.Itoa(ndb))
 		var rec recovered
 		rb, rerr := os.ReadFile(outPath)
 		_ = os.Remove(outPath)
@@ -459,17 +560,6 @@ func run(c *core.Case) {
 			continue
 		}
 		_ = json.Unmarshal(rb, &rec)
-		// which WAL segments held acknowledged raft records, and are they still there?
-		raftSegs := map[int]bool{}
-		if ab, err := os.ReadFile(ackPath + ".copy"); err == nil {
-			for _, ln := range strings.Split(string(ab), "\n") {
-				var si, seg int
-				if n, _ := fmt.Sscanf(ln, "SEG %d %d", &si, &seg); n == 2 {
-					raftSegs[seg] = true
-				}
-			}
-		}
-		_ = os.Remove(ackPath + ".copy")
 		present := map[int]bool{}
 		for _, n := range rec.WalSegments {
 			present[n] = true
@@ -481,7 +571,8 @@ func run(c *core.Case) {
 			}
 		}
 		sort.Ints(missing)
-		detail := map[string]any{"pure_raft_script": pure, "wal_segments_with_acked_raft_records_missing_at_reopen": missing, "script_seed": s.Seed, "steps": s.Steps, "crash_point": map[string]any{"kill_at": p.killAt, "after_step": p.afterStep, "stratum": p.stratum}, "acked": acked, "called": called, "recovered": rec}
+		detail := map[string]any{"pure_raft_script": pure, "wal_segments_with_acked_raft_records_missing_at_reopen": missing, "script_seed": s.Seed, "steps": s.Steps,
+			"crash_point": map[string]any{"kill_at": p.killAt, "after_step": p.afterStep, "stratum": p.stratum}, "acked": acked, "called": called, "recovered": rec}
 		ctx := "crash=" + p.stratum
 		if len(missing) > 0 {
 			// recorded finding: a WAL segment that held acknowledged, untruncated
@@ -489,55 +580,105 @@ func run(c *core.Case) {
 			ctx = "raft-wal-segment-removed"
 		}
 		if rec.OpenError != "" {
-			c.Violation("C21|db-reopen-failed|"+ctx, rec.OpenError, detail)
+			c.Violation(id+"|db-reopen-failed|"+ctx, rec.OpenError, detail)
 			continue
 		}
-		if rec.RaftError != "" {
-			c.Violation("C21|raft-storage-unrecoverable|"+ctx, "reopening the raft storage after the crash failed: "+rec.RaftError, detail)
-			continue
-		}
-		mA, mC := modelAfter(s, acked), modelAfter(s, called)
-		// hard state: term never goes backwards, vote unchanged within a term, commit not below acked
-		okHS := func(m mstate) bool {
-			if rec.Term < m.Term {
-				return false
+		bad := false
+		for g := 1; g <= ngroups && !bad; g++ {
+			rg := rec.Groups[strconv.Itoa(g)]
+			ga, gc := mA[uint64(g)], mC[uint64(g)]
+			if rg == nil {
+				c.Inconclusive("verifier did not report a group")
+				bad = true
+				break
 			}
-			if rec.Term == m.Term && rec.Vote != m.Vote {
-				return false
+			if rg.RaftError != "" {
+				c.Violation(id+"|raft-storage-unrecoverable|"+ctx, fmt.Sprintf("group %d: reopening the raft storage after the crash failed: %s", g, rg.RaftError), detail)
+				bad = true
+				break
 			}
-			return rec.Commit >= m.Commit || rec.Term > m.Term || rec.SnapIndex >= m.Commit
-		}
-		if !okHS(mA) && !okHS(mC) {
-			rule := "term-went-backwards"
-			if rec.Term >= mA.Term {
-				rule = "vote-or-commit-lost"
-			}
-			c.Violation("C21|hard-state|"+rule+"|"+ctx, fmt.Sprintf("recovered hard state term=%d vote=%d commit=%d but acknowledged term=%d vote=%d commit=%d", rec.Term, rec.Vote, rec.Commit, mA.Term, mA.Vote, mA.Commit), detail)
-			continue
-		}
-		// log: every acknowledged entry (above the recovered first index) present, overwrites winning
-		okLog := func(m mstate) string {
-			if rec.LastIndex < m.Last {
-				return fmt.Sprintf("recovered last index %d < acknowledged last index %d", rec.LastIndex, m.Last)
-			}
-			for idx, td := range m.Log {
-				if idx < rec.FirstIndex || idx <= m.SnapIndex {
-					continue
+			// hard state: term never goes backwards, vote unchanged within a term, commit not below acked
+			okHS := func(m *mstate) bool {
+				if rg.Term < m.Term {
+					return false
 				}
-				got, ok := rec.Log[strconv.FormatUint(idx, 10)]
-				want := [2]string{strconv.FormatUint(td[0], 10), fmt.Sprintf("e%d.%d|", td[1], idx)}
-				if !ok {
-					return fmt.Sprintf("acknowledged entry %d (term %d) missing", idx, td[0])
+				if rg.Term == m.Term && rg.Vote != m.Vote {
+					return false
 				}
-				if got != want {
-					return fmt.Sprintf("entry %d recovered as term=%s data=%s, acknowledged term=%s data=%s", idx, got[0], got[1], want[0], want[1])
+				return rg.Commit >= m.Commit || rg.Term > m.Term || rg.SnapIndex >= m.Commit
+			}
+			if id == "C21" && !okHS(ga) && !okHS(gc) {
+				rule := "term-went-backwards"
+				if rg.Term >= ga.Term {
+					rule = "vote-or-commit-lost"
+				}
+				c.Violation("C21|hard-state|"+rule+"|"+ctx, fmt.Sprintf("group %d: recovered hard state term=%d vote=%d commit=%d but acknowledged term=%d vote=%d commit=%d", g, rg.Term, rg.Vote, rg.Commit, ga.Term, ga.Vote, ga.Commit), detail)
+				bad = true
+				break
+			}
+			// log: every acknowledged entry that the group has not truncated is present, overwrites winning
+			okLog := func(m *mstate) string {
+				if rg.LastIndex < m.Last {
+					return fmt.Sprintf("group %d: recovered last index %d < acknowledged last index %d", g, rg.LastIndex, m.Last)
+				}
+				for idx, td := range m.Log {
+					if idx <= m.SnapIndex || idx <= m.Compacted {
+						continue
+					}
+					if id == "C21" && idx < rg.FirstIndex {
+						continue
+					}
+					got, ok := rg.Log[strconv.FormatUint(idx, 10)]
+					want := [2]string{strconv.FormatUint(td[0], 10), fmt.Sprintf("e%d.%d|", td[1], idx)}
+					if !ok {
+						return fmt.Sprintf("group %d: acknowledged entry %d (term %d) is not returned by Entries", g, idx, td[0])
+					}
+					if got != want {
+						return fmt.Sprintf("group %d: entry %d recovered as term=%s data=%s, acknowledged term=%s data=%s", g, idx, got[0], got[1], want[0], want[1])
+					}
+				}
+				return ""
+			}
+			if msgA, msgC := okLog(ga), okLog(gc); msgA != "" && msgC != "" {
+				rule := "log|acked-entry-not-recovered"
+				if id == "C36" {
+					rule = "raft-entries-lost"
+				}
+				c.Violation(id+"|"+rule+"|"+ctx, msgA, detail)
+				bad = true
+			}
+		}
+		if bad {
+			continue
+		}
+		if mode == "c36" {
+			// every acknowledged plain write is readable (the WAL was synced after each step)
+			lens := map[int]int{}
+			k := 0
+			for i := 0; i < called && i < len(s.Steps); i++ {
+				if s.Steps[i].Kind == "dbwrite" {
+					for j := 0; j < s.Steps[i].N; j++ {
+						k++
+						lens[k] = s.Steps[i].DataLen
+					}
 				}
 			}
-			return ""
-		}
-		if msgA, msgC := okLog(mA), okLog(mC); msgA != "" && msgC != "" {
-			c.Violation("C21|log|acked-entry-not-recovered|"+ctx, msgA, detail)
-			continue
+			for i := 1; i <= dbA; i++ {
+				key := fmt.Sprintf("db-%05d", i)
+				want := fmt.Sprintf("d%d|#%d", i, lens[i])
+				if got := rec.DB[key]; got != want {
+					memCtx := ctx
+					if ctx != "raft-wal-segment-removed" {
+						memCtx = "crash=" + p.stratum
+					}
+					c.Violation("C36|acked-write-lost|"+memCtx, fmt.Sprintf("key %s reads %q after the crash, acknowledged value %q (WAL was synced after the write)", key, got, want), detail)
+					bad = true
+					break
+				}
+			}
+			if bad {
+				continue
+			}
 		}
 		c.Count("recoveries_checked", 1)
 	}
@@ -564,21 +705,27 @@ func scriptsFor(tier string) int {
 	return 4
 }
 
-func init() {
-	core.RegisterWorker("c21db", workerMain)
-	core.RegisterWorker("c21verify", func(args []string) int { return verifyMain(args) })
+func register(id, rule string) {
 	core.Register(&core.Check{
-		ID:    "C21",
-		Level: "fault_enumeration",
-		Rule: "case = (script, chunk of crash points); script = 45 (quick) / 90 (thorough) seeded Ready-like steps on engine.WALStorage over a real DB's WAL and manifest: SetHardState (term/vote/commit growing), Append (incl. conflicting overwrites of an uncommitted suffix at a higher term, payloads 0..3000B), ApplySnapshot, MaybeCompact, plain DB writes (4KiB memtable so WAL segments switch); " +
-			"crash points: per stratum (durable file op kind x file class from a dry run) first/middle/last ordinal, and a kill right after EVERY step was acknowledged (the moment a peer would send messages); real SIGKILL; a fresh process reopens DB + raft storage; " +
-			"oracle: raft storage reopens; recovered term >= acknowledged term, vote unchanged within the term, commit not below acknowledged; every acknowledged entry above the recovered first index present with its term and payload (overwrite semantics), judged against the model after the acknowledged steps or after the one in-flight step; distinct = (script, stratum, acked count)",
+		ID:          id,
+		Level:       "fault_enumeration",
+		Rule:        rule,
 		Assumptions: []string{"process-crash model (bytes handed to the kernel survive)", "an acknowledged call is 'persisted' in the sense of peer.handleReady, which sends messages right after these calls return"},
 		Cases:       func(tier string) int { return scriptsFor(tier) * chunks },
-		Run:         run,
+		Run:         func(c *core.Case) { Run(c, id) },
 		Finish: func(a *core.Agg) {
 			a.Floor("crashes_executed", 60)
 			a.FloorNontrivial(30)
 		},
 	})
+}
+
+func init() {
+	core.RegisterWorker("c21db", workerMain)
+	core.RegisterWorker("c21verify", func(args []string) int { return verifyMain(args) })
+	register("C21", "case = (script, chunk of crash points); script = 45 (quick) / 90 (thorough) seeded Ready-like steps on engine.WALStorage over a real DB's WAL and manifest: SetHardState (term/vote/commit growing), Append (incl. conflicting overwrites of an uncommitted suffix at a higher term, payloads 0..3000B), ApplySnapshot (ahead of the log), MaybeCompact, plain DB writes (4KiB memtable so WAL segments switch; every second script is raft-only so that durability is judged without segment removal); "+
+		"crash points: per stratum (durable file op kind x file class from a dry run) first/middle/last ordinal, and a kill right after EVERY step was acknowledged (the moment a peer would send messages); real SIGKILL; a fresh process reopens DB + raft storage; "+
+		"oracle: raft storage reopens; recovered term >= acknowledged term, vote unchanged within the term, commit not below acknowledged; every acknowledged entry above the recovered first index present with its term and payload (overwrite semantics), judged against the model after the acknowledged steps or after the one in-flight step; distinct = (script, stratum, acked count)")
+	register("C36", "same crash enumeration as C21 over scripts that interleave plain writes, raft appends/hard states/snapshots/compactions of TWO raft groups sharing the DB's WAL, memtable rotations and flushes (4KiB memtable), and wal.Watchdog.RunOnce passes (configured as DB.Open does); db.WAL().Sync() after every step, so a record missing after the crash can only be explained by a removed segment; "+
+		"oracle after reopen: every acknowledged plain write reads back, every acknowledged raft entry above the group's snapshot/compaction index is returned by Entries; distinct = (script, stratum, acked count)")
 }
